@@ -220,12 +220,52 @@ def pbox_pairs(chk, tier):
                            f"[{r1.left[k]}, {r1.right[k]}] vs [{r2.left[k]}, {r2.right[k]}])", {"kind": "pair", "op": [kind, arg], "X": X, "X_wide": X2, "Y": Y, "c": c})
 
 
+def ds_pairs(chk, tier):
+    """Dempster-Shafer structures with UNEQUAL masses whose focal elements are nested / overlapping (the order of the lower ends differs
+    from the order of the upper ends): widening some focal elements must widen the stacked p-box, through every conversion route"""
+    from pyuncertainnumber import pba
+    from pyuncertainnumber.pba.aggregation import stacking, stochastic_mixture
+    rng = chk.rng
+    for i in range(18 if tier == "quick" else 200):
+        n = rng.randint(2, 6)
+        c = [pbx.dyadic(rng, -4, 4) for _ in range(n)]
+        if i % 2 == 0:      # nested around a common centre
+            c0 = c[0]
+            rad = sorted(pbx.dyadic(rng, 0.125, 6) for _ in range(n))
+            rng.shuffle(rad)
+            ivs = [[c0 - r * rng.choice([1, 0.5, 0.25]), c0 + r] for r in rad]
+        else:
+            ivs = [[a, a + pbx.dyadic(rng, 0, 5)] for a in c]
+        m = [rng.choice([1, 1, 2, 5, 9, 18]) for _ in range(n)]
+        masses = [x / sum(m) for x in m]
+        wide = [[a - (pbx.dyadic(rng, 0, 3) if rng.random() < 0.6 else 0.0), b + (pbx.dyadic(rng, 0, 3) if rng.random() < 0.6 else 0.0)] for a, b in ivs]
+        route = ["stacking", "dss", "mixture"][i % 3]
+        f = {"stacking": lambda v: stacking([list(t) for t in v], weights=masses),
+             "dss": lambda v: pba.DempsterShafer(intervals=[list(t) for t in v], masses=masses).to_pbox(),
+             "mixture": lambda v: stochastic_mixture(*[list(t) for t in v], weights=masses)}[route]
+        chk.count(f"ds-{route}", key=("DS", route, i))
+        rep = {"kind": "pair", "route": route, "intervals": ivs, "intervals_wide": wide, "masses": masses}
+        try:
+            r1, r2 = f(ivs), f(wide)
+        except Exception as e:
+            if "exceeds the right bound" in str(e):     # float tie of cumulated masses (finding O26 of C08)
+                continue
+            chk.report(f"DS.{route}", f"conversion raises {type(e).__name__}: {str(e)[:80]}", rep)
+            continue
+        s_ = scale_of(r2.left, r2.right)
+        if not inside((r1.left, r1.right), (r2.left, r2.right), 1e-12 * s_):
+            k = int(np.argmax((np.asarray(r2.left) > np.asarray(r1.left) + 1e-12 * s_) | (np.asarray(r1.right) > np.asarray(r2.right) + 1e-12 * s_)))
+            chk.report(f"DS.{route}", f"p-box of the structure with the contained focal elements is not contained in the p-box of the widened structure (step {k}: "
+                       f"[{r1.left[k]}, {r1.right[k]}] vs [{r2.left[k]}, {r2.right[k]}])", rep)
+
+
 def body(chk):
     pbx.patch_fast_moments()
     pr = chk.do_proofs()
     interval_pairs(chk, chk.tier)
     expr_pairs(chk, chk.tier)
     pbox_pairs(chk, chk.tier)
+    ds_pairs(chk, chk.tier)
     chk.corr = {"note": "no model run of its own: the models used by the theorems are validated by the C01, C03, C05, C06, C08, C11, C13 correspondence runs"}
     chk.sample({"pair": "Interval op: X inside X' (widened lo / hi / both / by a few ulp), second operand of every kind and shape"})
     chk.sample({"pair": "p-box op: X inside X' (shifted bounds / per-step widening / widened tails), dependencies f,p,o,i, constants, unary maps, env, imp, stacking, nested"})
